@@ -7,6 +7,7 @@ import (
 
 	"github.com/deckhouse/deckhouse/pkg/log"
 	"k8s.io/apimachinery/pkg/apis/meta/v1/unstructured"
+	"k8s.io/client-go/tools/cache"
 
 	klient "github.com/flant/kube-client/client"
 	"github.com/flant/shell-operator/pkg/filter/jq"
@@ -59,3 +60,9 @@ func VerifApplyFilterC08(jqFilter string, obj *unstructured.Unstructured) (*kemt
 
 // VerifResourceIdC08 is the cache key of an object.
 func VerifResourceIdC08(obj *unstructured.Unstructured) string { return resourceId(obj) }
+
+// OnDeleteTombstone delivers the delete the way client-go does after a missed watch event:
+// the last known state wrapped in a cache.DeletedFinalStateUnknown value.
+func (v *VerifInformerC08) OnDeleteTombstone(key string, obj *unstructured.Unstructured) {
+	v.ei.OnDelete(cache.DeletedFinalStateUnknown{Key: key, Obj: obj})
+}
